@@ -10,7 +10,7 @@ use tungstenite::Message;
 use crate::engine::*;
 use crate::{vensure, vfail};
 
-pub const RULE: &str = "(a) every message kind (announce with offers and/or answer, all events incl. stopped, optional fields present/absent; scrape with one/several/no hashes; announce/scrape/offer/answer/error replies) with ids over all byte values and SDP strings containing quotes, backslashes, control characters, U+0000 and non-BMP characters: from_ws_message(to_ws_message(m)) == m through a text frame and through a binary frame; (b) the encoder's JSON parsed with serde_json::Value: every id is a string of exactly 20 chars <= U+00FF equal to the bytes; (c) hand-built JSON (raw and \\u-escaped forms) carrying identifier strings of 0..40 chars incl. chars above U+00FF in every id-bearing field: accepted iff exactly 20 chars all <= U+00FF, and then decoded to exactly those bytes. non-trivial = SDP beyond ASCII letters, an id byte >= 0x80 or < 0x20, a wrong-length or out-of-range id string, an error/stopped message; distinct = distinct serialised case";
+pub const RULE: &str = "(a) every message kind (announce with offers and/or answer, all events incl. stopped, optional fields present/absent; scrape with one/several/no hashes; announce/scrape/offer/answer/error replies) with ids over all byte values and SDP strings containing quotes, backslashes, control characters, U+0000 and non-BMP characters: from_ws_message(to_ws_message(m)) == m through a text frame and through a binary frame; (b) the encoder's JSON parsed with serde_json::Value: every id is a string of exactly 20 chars <= U+00FF equal to the bytes; (c) hand-built JSON (raw and \\u-escaped forms) carrying identifier strings of 0..40 chars incl. chars above U+00FF, and strings whose UTF-8 length (not char count) is 20 or 40, in every id-bearing field: accepted iff exactly 20 chars all <= U+00FF, and then decoded to exactly those bytes. non-trivial = SDP beyond ASCII letters, an id byte >= 0x80 or < 0x20, a wrong-length or out-of-range id string, an error/stopped message; distinct = distinct serialised case";
 
 #[derive(Debug, Clone, Serialize, Deserialize)]
 pub struct AnnIn {
@@ -331,6 +331,10 @@ pub fn prop(case: &Case) -> CaseResult {
             if chars.len() > 20 {
                 out.label("id-too-long");
             }
+            let utf8: usize = chars.iter().map(|c| c.len_utf8()).sum();
+            if chars.len() != 20 && (utf8 == 20 || utf8 == 40) {
+                out.label("id-utf8-length-20-or-40-but-not-20-chars");
+            }
         }
     }
     Ok(out)
@@ -369,6 +373,39 @@ fn u64b() -> impl Strategy<Value = u64> + Clone {
 }
 
 fn id_chars() -> impl Strategy<Value = Vec<char>> {
+    prop_oneof![8 => id_chars_by_count(), 2 => id_chars_by_utf8_len()]
+}
+
+/// strings whose *UTF-8 length* is 20 (or 40: UTF-16-ish confusion) although the number of
+/// chars is not: k multi-byte chars among ASCII ones
+fn id_chars_by_utf8_len() -> impl Strategy<Value = Vec<char>> {
+    let two = proptest::char::range('\u{80}', '\u{7ff}');
+    let three = proptest::char::range('\u{800}', '\u{d7ff}');
+    let ascii = proptest::char::range('\u{0}', '\u{7f}');
+    (prop_oneof![4 => Just(20usize), 1 => Just(40usize)], proptest::collection::vec((any::<bool>(), two, three), 1..11), proptest::collection::vec(ascii, 40), any::<u16>())
+        .prop_map(|(target, multi, filler, rot)| {
+            let mut chars = Vec::new();
+            let mut bytes = 0usize;
+            for (is_three, c2, c3) in multi {
+                let (c, n) = if is_three { (c3, 3) } else { (c2, 2) };
+                if bytes + n <= target {
+                    chars.push(c);
+                    bytes += n;
+                }
+            }
+            for c in filler {
+                if bytes < target {
+                    chars.push(c);
+                    bytes += 1;
+                }
+            }
+            let k = rot as usize % chars.len().max(1);
+            chars.rotate_left(k);
+            chars
+        })
+}
+
+fn id_chars_by_count() -> impl Strategy<Value = Vec<char>> {
     let low = proptest::char::range('\u{0}', '\u{ff}');
     let high = prop_oneof![Just('\u{100}'), Just('\u{17f}'), Just('\u{20ac}'), Just('\u{1d54a}'), Just('\u{ffff}'), any::<char>()];
     (
@@ -416,7 +453,7 @@ pub fn run(ctx: &mut Ctx) {
     ctx.run_regress::<Case, _>("codec", prop);
     let tier = ctx.tier;
     ctx.run_prop("codec", tier.pick(200_000, 3_000_000), strategy, prop);
-    for l in ["id-string-accepted", "id-string-rejected", "id-too-long", "sdp-special", "binary-id", "event-stopped", "error-response", "announce-with-answer", "announce-with-offers"] {
+    for l in ["id-string-accepted", "id-string-rejected", "id-too-long", "id-utf8-length-20-or-40-but-not-20-chars", "sdp-special", "binary-id", "event-stopped", "error-response", "announce-with-answer", "announce-with-offers"] {
         ctx.require_label("codec", l, 0.01);
     }
 }
